@@ -73,11 +73,11 @@ var errKinds = []string{"eof", "ueof", "err", "weof", "closed"}
 type c06run struct {
 	prev     *C06Case
 	explicit bool
-	d    *dev.Dev
-	res  *C06Result
-	seen map[uint64]struct{}
-	ctr  int
-	keep int
+	d        *dev.Dev
+	res      *C06Result
+	seen     map[uint64]struct{}
+	ctr      int
+	keep     int
 }
 
 func fnv(h uint64, v uint64) uint64 { return (h ^ v) * 0x100000001b3 }
